@@ -151,6 +151,15 @@ theorem selection_valid (p : Picker) (ops : List POp) (h : selOk p.choices p.sel
     have := ha (op :: pre) op' post (by rw [he]; rfl)
     simpa using this
 
+/-- what a helper leaves behind after `refresh`, whatever was selected before: the choices of the
+current datasets and a valid selection (this is the state of the viewers' own pickers after every
+`_layers_changed`; family `vpick`). -/
+theorem picker_after_refresh_ok (F : Flags) (ds : List DS) (idx : Int) (prev : Option Nat) :
+    comboOk F ds (refresh F ds) (choicesUpdated idx (refresh F ds) prev) = true := by
+  unfold comboOk
+  rw [Bool.and_eq_true]
+  exact ⟨beq_self_eq_true _, Lemmas.C18Combo.selOk_choicesUpdated idx _ prev⟩
+
 /-- echo accepts an explicit `None` unconditionally: the one way a client can leave a picker without
 a selection although attributes are on offer (not reachable through the helpers' own code). -/
 theorem explicit_none_accepted :
